@@ -29,6 +29,9 @@ def bound_pool() -> List[BoundSpec]:
     for t in TYPES:
         pool.append(("L", t))
         pool.append(("U", t))
+    # an argument of type Any contributes a lower bound, a parameter of type Any an upper bound
+    pool.append(("L", "Any"))
+    pool.append(("U", "Any"))
     pool.append(("C", ("int", "str")))
     pool.append(("C", ("str", "object")))
     pool.append(("C", ("bool", "int", "str")))
@@ -51,6 +54,8 @@ def tname(m: FrozenSet[str]) -> str:
 # ---------------------------------------------------------------- reference
 def satisfies(members: FrozenSet[str], bounds: Sequence[BoundSpec]) -> Optional[str]:
     for kind, v in bounds:
+        if v == "Any":
+            continue  # satisfied by every type
         if kind == "L" and not TYPES[v] <= members:
             return f"does not accept the lower bound {v}"
         if kind == "U" and not members <= TYPES[v]:
@@ -63,7 +68,7 @@ def satisfies(members: FrozenSet[str], bounds: Sequence[BoundSpec]) -> Optional[
 def solvable(bounds: Sequence[BoundSpec]) -> bool:
     low: FrozenSet[str] = frozenset()
     for kind, v in bounds:
-        if kind == "L":
+        if kind == "L" and v != "Any":
             low = low | TYPES[v]
     cons = [TYPES[c] for kind, v in bounds if kind == "C" for c in v]
     cands = cons if cons else [low] + list(TYPES.values())
@@ -99,9 +104,9 @@ class SolverModel:
         objs = []
         for kind, v in bounds:
             if kind == "L":
-                objs.append(Obj("LowerBound", typevar=Sym("T"), value=self._value(TYPES[v])))
+                objs.append(Obj("LowerBound", typevar=Sym("T"), value=self._any() if v == "Any" else self._value(TYPES[v])))
             elif kind == "U":
-                objs.append(Obj("UpperBound", typevar=Sym("T"), value=self._value(TYPES[v])))
+                objs.append(Obj("UpperBound", typevar=Sym("T"), value=self._any() if v == "Any" else self._value(TYPES[v])))
             else:
                 objs.append(Obj("IsOneOf", typevar=Sym("T"), constraints=tuple(self._value(TYPES[c]) for c in v)))
 
